@@ -284,7 +284,16 @@ func verifyServerExtensions(copts *compressionOptions, h http.Header) (*compress
 	// must be kept. (We remain free not to use context takeover on our own side.)
 	copts.serverNoContextTakeover = false
 
-	for _, p := range ext.params {
+	for i, p := range ext.params {
+		// A response that repeats a parameter name is invalid and fails the
+		// connection, see RFC 7692 section 7.
+		name := strings.SplitN(p, "=", 2)[0]
+		for _, q := range ext.params[:i] {
+			if strings.SplitN(q, "=", 2)[0] == name {
+				return nil, fmt.Errorf("duplicate permessage-deflate parameter: %q", p)
+			}
+		}
+
 		switch p {
 		case "client_no_context_takeover":
 			copts.clientNoContextTakeover = true
